@@ -65,6 +65,13 @@ static void wait_registered(int id, int n, int keep) {
   }
 }
 
+// -Dstray=1: one more fiber issues a single signal that is aimed at nobody, concurrently with everything else
+static void* stray(void* p) {
+  credit(1);
+  fiber_cond_signal(&C);
+  return 0;
+}
+
 static void* signaller(void* p) {
   int id = 9;
   // -Dearly=k: k signals are issued without looking whether anybody waits (they may race with
@@ -124,6 +131,7 @@ int harness_main(void) {
   fmc_begin();
   for (int i = 0; i < W + extra; i++) fiber_detach(fiber_create(STK, waiter, (void*)(intptr_t)i));
   fiber_detach(fiber_create(STK, signaller, 0));
+  if (fmc_param("stray", 0)) fiber_detach(fiber_create(STK, stray, 0));
   rt_park_until_quiescent(at_quiescence);
   return 0;
 }
